@@ -602,10 +602,29 @@ def _annotation_roots(pb, rng, size):
         tg["seq"] = tg["seq"].translate(str.maketrans("ACGT", "CATG"))
         names.append(pb.add_root("collection", twin))
     # variants on the same genome
-    if rng.random() < 0.5 and parent["mode"] != "none":
+    if rng.random() < 0.65 and parent["mode"] != "none":
         lo, hi = (parent["chunk"] if parent["mode"] == "chunk" else (0, L))
+        hi0, pin_first = hi, False
+        r_ = rng.random()
+        if r_ < 0.25 and hi - lo > 24:
+            # all variants in the downstream part of the sequence: whatever is annotated upstream of them is untouched
+            lo = rng.randint(lo + (hi - lo) // 2, hi - 9)
+        elif coll["genes"] and r_ < 0.7:
+            # variants inside a gene's span (so that they hit some isoforms and miss others), not anywhere on the sequence
+            g_ = rng.choice(coll["genes"])
+            glo = max(lo, min(t["exon_starts"][0] for t in g_["transcripts"]))
+            ghi = min(hi, max(t["exon_ends"][-1] for t in g_["transcripts"]))
+            if ghi - glo > 8:
+                lo, hi = glo, ghi
+                ends_ = sorted({t["exon_ends"][-1] for t in g_["transcripts"]})
+                if len(ends_) > 1 and rng.random() < 0.6 and hi0 - ends_[0] > 8:
+                    # ... the first one exactly where the isoform that ends first stops (isoform ends lie within a few
+                    # bases of each other): it then misses that isoform and hits the others
+                    lo, hi, pin_first = ends_[0], hi0, True
         if hi - lo > 8:
             vc = specs.gen_variant_collection(rng, lo, hi, idx="x")
+            if pin_first and vc["variant_intervals"]:
+                vc["variant_intervals"][0].update(start=lo, end=lo + 1, sequence=rng.choice("ACGT"), variant_type="SNV")
             names.append(pb.add_root("variant_collection", specs.with_parent(vc, parent)))
             names.append(pb.add_root("variant", specs.with_parent(vc["variant_intervals"][0], parent)))
     # a location on the same parent
@@ -675,6 +694,7 @@ def gen_plan(rng, check="C10", size=1, max_steps=60, known_avoid=()):
     covering = 0.30 <= r0 < 0.52
     repeat_op = 0.52 <= r0 < 0.65
     cursors = 0.65 <= r0 < 0.72
+    inherit = 0.72 <= r0 < 0.82
     if focused:
         nsess = rng.randint(1, 3)
         style = 1.0
@@ -737,6 +757,45 @@ def gen_plan(rng, check="C10", size=1, max_steps=60, known_avoid=()):
                         if st:
                             steps.append(st)
                 sessions.append(steps)
+    if inherit:
+        # inheritance probe: every argument-less question is asked of X (fills every lazy field and memo X has), then
+        # several different derivations Y_i of X are made and every argument-less question is asked of each Y_i -
+        # whatever a derivation carries over from its source shows, whichever accessor and derivation it is
+        nsess = 0
+        kinds = sorted({pb.objects[n]["kind"] for n in roots if _derive_ops(pb.objects[n]["kind"])})
+        if kinds:
+            kind = rng.choice(kinds)
+            x = rng.choice([n for n in roots if pb.objects[n]["kind"] == kind])
+            plain = [o for o in REGISTRY[kind] if not o.args]
+            rng.shuffle(plain)
+            steps = []
+            for op in plain[:45]:
+                st = pb.call_step(0, x, op, store_p=0.0)
+                if st:
+                    steps.append(st)
+            dops = list(_derive_ops(kind))
+            rng.shuffle(dops)
+            made = 0
+            for dop in dops:
+                if made >= 8:
+                    break
+                st = pb.call_step(0, x, dop, store_p=1.0)
+                if not st or "store" not in st:
+                    continue
+                made += 1
+                steps.append(st)
+                y = st["store"]
+                yk = pb.objects[y]["kind"]
+                if yk not in REGISTRY:
+                    continue
+                yplain = [o for o in REGISTRY[yk] if not o.args]
+                rng.shuffle(yplain)
+                for op in yplain[:22]:
+                    st2 = pb.call_step(0, y, op, store_p=0.0)
+                    if st2:
+                        steps.append(st2)
+            sessions.append(steps)
+            max_steps = max(max_steps, 260)
     if repeat_op:
         # the same question with different arguments, repeated: thrashes every argument-keyed memo / index
         nsess = 0
